@@ -299,7 +299,7 @@ pub fn main(args: &[String]) -> i32 {
             });
             // the explicit rate next to OTHER mods, with the two setters in either order (each setter is independent of the
             // other; the rate mod of the same selection says the same thing in one call)
-            for other in [8u32, 16] {
+            for other in [8u32, 16, 64, 256, 64 | 512] {
                 extra += 1;
                 let first_rate = guarded(|| format!("{:?}", Difficulty::new().clock_rate(r_ref).mods(other).calculate(map)));
                 let first_mods = guarded(|| format!("{:?}", Difficulty::new().mods(other).clock_rate(r_ref).calculate(map)));
